@@ -19,6 +19,7 @@ RULE = (
     "Spec oracle: every `send` completes in ONE poll; a subscriber with unlimited credit receives every message, in "
     "order, byte for byte; a stalled subscriber never receives more than its credit; what is flushed after the stall is "
     "at most high-water mark + one message."
+    " Family transient-flush: a transient write error on one subscriber's connection at publish #0..2 of four (10, 300, 5000, 10 bytes): the publisher never waits, the other subscriber gets every message at the publish that sent it, the victim never receives more bytes than were published (no message twice)."
 )
 ASSUMPTIONS = ["asynchronous-codec FramedWrite2 is modelled (Model.Sink) and exercised for real, not verified",
                "buffered bytes are observed through the flush that follows the stall, not through the allocator"]
@@ -53,8 +54,32 @@ def publish(sc, nsub, size, seed):
         sc.add(f"wire {p}")
 
 
+def transient_cases():
+    """a TRANSIENT write error (`wrerr1`: exactly one write fails — EINTR, a timeout) on one subscriber's connection at
+    publish #at: the publisher never waits, the other subscriber gets everything, and the victim's stream stays an
+    order-preserving subsequence of what was published — each message at most once, whole"""
+    out = []
+    n = 950000
+    sizes = [10, 300, 5000, 10]
+    for typ in ("PUB", "XPUB"):
+        for kind in ("Interrupted", "TimedOut", "WouldBlock"):
+            for at in range(3):
+                sc = wg.Script()
+                setup(sc, typ, 2)
+                for j, s in enumerate(sizes):
+                    if j == at:
+                        sc.add(f"wrerr1 1 {kind}")
+                    publish(sc, 2, s, 7000 + 1 + j)
+                c = sc.case(f"transient-{typ}-{kind}#{n}", ["transient-flush-" + typ])
+                c.expect = ("transient", sizes, 7000)
+                out.append(c)
+                n += 1
+    return out
+
+
 def cases(tier, rng):
     out = gen.corpus(ID)
+    out += transient_cases()
     n = 0
     seed = 1000
     for typ in ("PUB", "XPUB"):
@@ -149,6 +174,21 @@ def oracle(case, lines):
         if op.startswith("send") and res[i + 1][1] != "ready ok":
             return f"publishing waited for a subscriber: `{op[:40]}` -> first poll {res[i + 1][1]}"
     if not case.expect:
+        return None
+    if case.expect[0] == "transient":
+        _, sizes, s0 = case.expect
+        encs = [wg.show_wire([[("gen", s, s0 + 1 + j)]]) for j, s in enumerate(sizes)]
+        # the healthy subscriber: every message, at the publish that sent it
+        w2 = [l for op, l in res if op == "wire 2"][1:]
+        if w2 != ["wire " + e for e in encs]:
+            return f"the healthy subscriber did not get every message as it was published: {[w[:30] for w in w2]}"
+        # the victim: its wire deltas, concatenated, must be a concatenation of a SUBSEQUENCE of the encodings (each once)
+        w1 = [l.split(" ", 1)[1] for op, l in res if op == "wire 1"][1:]
+        total = sum(wire_len("wire " + w) for w in w1)
+        want = sum(s + (9 if s > 255 else 2) for s in sizes)
+        if total > want:
+            return (f"the subscriber whose connection reported ONE transient write error received {total} bytes — more than "
+                    f"everything published ({want}): a message was written twice")
         return None
     if case.expect[0] == "one":
         _, credit, sizes = case.expect
